@@ -907,7 +907,9 @@ def neutron_scattering(compound, density=None,
     is_energy_dependent = False
     for element, quantity in compound.atoms.items():
         # TODO: use NaN rather than None
-        if not element.neutron.has_sld():
+        # Note: has_sld() also asks for the element density, which is not
+        # needed here since the compound density is given.
+        if element.neutron.b_c is None:
             return None, None, None
         molar_mass += element.mass*quantity
         num_atoms += quantity
